@@ -160,6 +160,29 @@ func init() {
 	})
 }
 
+func init() {
+	// family "policy-add": the real policy.add on a policy and a node built from the model's entry values
+	replayFamilies = append(replayFamilies, func(o *oblResult) *replayPlan {
+		if o.Func != "(*policy).add" {
+			return nil
+		}
+		env := map[string]string{"GOVC_TAG": o.Tag}
+		for k, pfx := range map[string]string{"GOVC_W": "probe_n.weight", "GOVC_STATE": "probe_n.state", "GOVC_MAX": "probe_p.maximum",
+			"GOVC_SIZE": "probe_p.weightedSize", "GOVC_WINMAX": "probe_p.windowMaximum", "GOVC_WEIGHTED": "probe_p.isWeighted"} {
+			v, ok := modelVal(o.Model, pfx)
+			if !ok {
+				if k == "GOVC_W" || k == "GOVC_MAX" {
+					return nil
+				}
+				v = 0
+			}
+			env[k] = fmt.Sprintf("%d", v)
+		}
+		return &replayPlan{template: "policy_add_test.go.tmpl", pkgDir: ".", test: "TestGovcReplay_PolicyAdd", env: env,
+			why: "the real policy.add with the model's maximum, running total, node weight and node state; the clause that failed is re-checked on the result"}
+	})
+}
+
 // tryReplay attempts to reproduce a failed obligation on the real code.
 func tryReplay(w *world, prop string, o *oblResult, rec map[string]any) (bool, map[string]any) {
 	for _, fam := range replayFamilies {
